@@ -6,10 +6,10 @@ from engine.core import shard_map
 from engine.tlc import MachineryError
 from bind.sandbox import PROP_KEYS
 
-CFGS = {("C04", "quick"): ["MC_Sandbox_modes_q.cfg", "MC_Sandbox_modes2_q.cfg", "MC_Sandbox_realio_q.cfg"], ("C05", "quick"): ["MC_Sandbox_modes_q.cfg", "MC_Sandbox_tracer_q.cfg", "MC_Sandbox_blocked_q.cfg", "MC_Sandbox_coverage_q.cfg"],
+CFGS = {("C04", "quick"): ["MC_Sandbox_modes_q.cfg", "MC_Sandbox_modes2_q.cfg", "MC_Sandbox_realio_q.cfg"], ("C05", "quick"): ["MC_Sandbox_modes_q.cfg", "MC_Sandbox_tracer_q.cfg", "MC_Sandbox_blocked_q.cfg", "MC_Sandbox_blockednest_q.cfg", "MC_Sandbox_coverage_q.cfg"],
         ("C15", "quick"): ["MC_Sandbox_ledger_q.cfg", "MC_Sandbox_inputs_q.cfg", "MC_Sandbox_requeue_q.cfg", "MC_Sandbox_saved_q.cfg", "MC_Sandbox_realio_q.cfg"],
         ("C04", "thorough"): ["MC_Sandbox_modes_q.cfg", "MC_Sandbox_modes2_q.cfg", "MC_Sandbox_realio_q.cfg", "MC_Sandbox_modes_t.cfg"],
-        ("C05", "thorough"): ["MC_Sandbox_modes_q.cfg", "MC_Sandbox_modes2_q.cfg", "MC_Sandbox_tracer_q.cfg", "MC_Sandbox_blocked_q.cfg", "MC_Sandbox_coverage_q.cfg", "MC_Sandbox_modes_t.cfg"],
+        ("C05", "thorough"): ["MC_Sandbox_modes_q.cfg", "MC_Sandbox_modes2_q.cfg", "MC_Sandbox_tracer_q.cfg", "MC_Sandbox_blocked_q.cfg", "MC_Sandbox_blockednest_q.cfg", "MC_Sandbox_coverage_q.cfg", "MC_Sandbox_modes_t.cfg"],
         ("C15", "thorough"): ["MC_Sandbox_ledger_q.cfg", "MC_Sandbox_inputs_q.cfg", "MC_Sandbox_requeue_q.cfg", "MC_Sandbox_saved_q.cfg", "MC_Sandbox_realio_q.cfg", "MC_Sandbox_ledger_t.cfg"]}
 SIMS = {("C04", "quick"): [("SIM_Sandbox_modes_deep.cfg", 50, 10)], ("C05", "quick"): [("SIM_Sandbox_modes_deep.cfg", 50, 10), ("SIM_Sandbox_deep.cfg", 75, 12)],
         ("C15", "quick"): [("SIM_Sandbox_deep.cfg", 150, 12)],
